@@ -1,6 +1,7 @@
 (* C13 - Built-in solvers pick valid actions by their rule and leave the env untouched.
    Statements only; proofs in theories/SolversProofs.v and theories/EnvProofs.v. *)
 From ICG Require Import Prelude Bits Table Bounds GameOps SAKnowledge Shapley Exploit Norms Env EnvProofs SolversProofs.
+From ICG Require Import RegistryTypes gen.Registry gen.RegistryLinkProps.
 
 (* valid actions = positions where the mask is true *)
 Theorem C13_valid : forall e a, In a (sv_valid e) <-> nth_error (ev_mask e) a = Some true.
@@ -44,6 +45,12 @@ Theorem C13_step_unstep_restores : forall e a e1 e2 ch k, ev_wf e -> ev_inv e ch
   ev_step e a = Some e1 -> ev_unstep e1 a = Some e2 -> teqn (e_n e) (e_tab e2) (e_tab e) /\ e_steps e2 = e_steps e.
 Proof. exact ev_step_unstep. Qed.
 Print Assumptions C13_step_unstep_restores.
+
+(* every name of the SOLVERS registry of /repo (regenerated on every run) is one of the modelled solvers *)
+Theorem C13_registry_solvers_modelled :
+  Forall (fun kv => exists m, rl_solver (snd kv) = Some m) solvers_registry.
+Proof. exact registry_solvers_modelled. Qed.
+Print Assumptions C13_registry_solvers_modelled.
 
 Example C13_nontrivial :
   let e0 := ev_make 4 CCached GExploit None [1; 2; 4; 8]%N in
